@@ -82,7 +82,7 @@ def make_worker_setup(verb, meth, mode):
         def run(i, a, k):
             return task.coro
 
-        vars = {"self": sess.server, "connection": sess.conn, "sess": sess, "task": task, "verb": verb}
+        vars = {"self": sess.server, "connection": sess.conn, "sess": sess, "task": task, "verb": verb, "ev0": len(it.ctx.events)}
         return Builtin("spawned:" + WORKERS[verb][1], run), [], {}, vars
 
     return setup
@@ -95,6 +95,11 @@ def worker_exit(S, outcome):
     verb = S.vars["verb"]
     wname = WORKERS[verb][1].split(".")[-1]
     cs = codes(sess)
+    # C16: the wait for the data connection is bounded by wait_future_timeout (None = unbounded, as configured)
+    wft = it.unbox(sess.conn.slots["wait_future_timeout"].fut.value)
+    waits = [e for e in ctx.events[S.vars["ev0"]:] if e[0] == "wait_for"]
+    if wft is not None:
+        ctx.check(f"{wname}/exit:data-connection-wait-bounded-by-wait_future_timeout", z3.BoolVal(bool(waits) and waits[0][1] is wft), info={"props": ["C16"]})
     cancelled = any(e[0] == "cancelled" for e in ctx.events)
     faults = getattr(sess, "faults", 0)
     # ---- C12 / C13(b): every exit releases what the worker owned
@@ -137,7 +142,7 @@ def worker_exit(S, outcome):
 
 def define_worker_units():
     for verb, (meth, wq) in WORKERS.items():
-        c = contract(SERVER, f"Server.{meth}", props=["C12", "C13", "C14", "C05", "C16", "C04", "C03"], name=f"{wq.split('.')[-1]}@{verb}")
+        c = contract(SERVER, f"Server.{meth}", props=["C12", "C13", "C14", "C05", "C16", "C04", "C03", "C17"], name=f"{wq.split('.')[-1]}@{verb}")
         c.setup = make_worker_setup(verb, meth, "SEQ")
         c.uses = [(SERVER, "Server.get_paths#opaque"), (SERVER, "User.get_permissions#summary")]
         c.cancellable = True
